@@ -11,6 +11,7 @@ LEVEL = {
  'C09': ('proof', "call-site assertion at every run_tape call inside an instruction: effective flags, plugins, contracts and call-stack limit of the sub-tape equal those of the calling tape; flag frame for every instruction other than the two flag instructions; set_tape_flags itself is an assumed contract with a bounded stand-in (labelled)."),
  'C10': ('proof', "int_to_bytes / bytes_to_int bodies verified against the two's-complement spec for ALL integers (unbounded), using ground instances of the pow2 / bitlen laws and the stated assumption A-LOG2; float wrappers: type and length checks proved, bit-exactness is struct's (bounded stand-in, labelled)."),
  'C16': ('proof', "the four time instructions refine the window formulas stated in the property for all (t, now, c, threshold) and constraint items of every length."),
+ 'C19': ('proof', "add/remove/reset of plugins, contracts and signature extensions verified against set-semantics postconditions over the module registries (quantified over all registry contents and scopes): after add the extension is active exactly once, after remove/reset it is not, every other entry is unchanged; run_script / run_auth_scripts read the registries at call time (ensures over the tape they build); histories of operations follow by composition of the per-operation postconditions, with a bounded native history check (labelled bounded) as cross-check."),
  'C20': ('proof', "NOP body refines 'read one signed count byte, remove that many items, nothing else' for all states; run_tape's dispatch never raises KeyError (all 256 codes covered); table partition and NOP compile/decompile handlers checked exhaustively on the live tables (256 x free codes)."),
 }
 NOTE = "trusted: z3/cvc5, the pyvc VC generator (encoding of Python semantics per DESIGN.md 2.4), CPython for concrete operations, assumed contracts on libsodium/hashlib/struct, contracts marked trusted in the sidecar (listed in every evidence file); see evidence.assumptions"
